@@ -662,8 +662,10 @@ func (c S3ApiController) GetActions(ctx *fiber.Ctx) error {
 		})
 	}
 
+	// partial content only when the backend served a valid range; an absent,
+	// malformed or unsupported Range header gets the entire object
 	status := http.StatusOK
-	if acceptRange != "" {
+	if getstring(res.ContentRange) != "" {
 		status = http.StatusPartialContent
 	}
 
